@@ -1177,6 +1177,8 @@ def shrink(ctx, failure):
                 cand = its[:i] + its[i + 1:]
                 c2 = dict(case)
                 c2[field] = ",".join(cand) or "-"
+                if case["transport"] == "http" and not http_script_ok(parse(c2["script"])):
+                    continue      # keep the device discipline the oracle's rule is stated for
                 probs = [p for p in _rerun(c2) if p[0] == failure["sig"]]
                 if probs:
                     case, changed = c2, True
